@@ -59,6 +59,72 @@ type zzResult struct {
 	Stage    string // "lookup", "init", "validate", "apply"
 }
 
+// zzArrange re-spells the attribute list as the case asks (key "attr_order"): "reversed" lists the same
+// attributes in the opposite order; "defaults-first" puts the attributes the node leaves out in front,
+// spelled out with their default values. Neither changes what the node means.
+func zzArrange(v *zzverif.T, opType string, attrs []*onnx.AttributeProto) []*onnx.AttributeProto {
+	if !v.Has("attr_order") {
+		return attrs
+	}
+	has := func(name string) bool {
+		for _, a := range attrs {
+			if a.Name == name {
+				return true
+			}
+		}
+		return false
+	}
+	switch v.CStr("attr_order") {
+	case "reversed":
+		out := make([]*onnx.AttributeProto, len(attrs))
+		for i, a := range attrs {
+			out[len(attrs)-1-i] = a
+		}
+		return out
+	case "defaults-first":
+		var d []*onnx.AttributeProto
+		addI := func(name string, val int64) {
+			if !has(name) {
+				d = append(d, zzAttrI(name, val))
+			}
+		}
+		switch opType {
+		case "ArgMax":
+			addI("select_last_index", 0)
+			addI("keepdims", 1)
+			addI("axis", 0)
+		case "ReduceMax", "ReduceMin":
+			addI("keepdims", 1)
+		case "Gemm":
+			if !has("alpha") {
+				d = append(d, zzAttrF("alpha", 1))
+			}
+			if !has("beta") {
+				d = append(d, zzAttrF("beta", 1))
+			}
+			addI("transA", 0)
+			addI("transB", 0)
+		case "Conv":
+			addI("group", 1)
+			if !has("auto_pad") {
+				d = append(d, zzAttrS("auto_pad", "NOTSET"))
+			}
+		case "GRU":
+			addI("linear_before_reset", 0)
+		case "LSTM":
+			addI("input_forget", 0)
+		case "Flatten":
+			addI("axis", 1)
+		case "Softmax", "LogSoftmax":
+			addI("axis", -1)
+		case "Gather":
+			addI("axis", 0)
+		}
+		return append(d, attrs...)
+	}
+	return attrs
+}
+
 // zzRun drives an operator the way Model.applyOp does:
 // GetOperator -> Init -> ValidateInputs -> Apply.
 func zzRun(v *zzverif.T, opType string, attrs []*onnx.AttributeProto, inputs []tensor.Tensor) zzResult {
@@ -69,7 +135,7 @@ func zzRun(v *zzverif.T, opType string, attrs []*onnx.AttributeProto, inputs []t
 			r.Err, r.Stage = err, "lookup"
 			return
 		}
-		r = zzRunOn(op, opType, attrs, inputs)
+		r = zzRunOn(op, opType, zzArrange(v, opType, attrs), inputs)
 	})
 	return r
 }
@@ -116,7 +182,7 @@ func zzInitOp(v *zzverif.T, opType string, attrs []*onnx.AttributeProto) (op ops
 	panicked = v.Try(func() {
 		op, err = GetOperator(opType)
 		if err == nil {
-			err = op.Init(&onnx.NodeProto{OpType: opType, Attribute: attrs})
+			err = op.Init(&onnx.NodeProto{OpType: opType, Attribute: zzArrange(v, opType, attrs)})
 		}
 	})
 	return
